@@ -231,3 +231,44 @@ Definition weight_scales (mean : Qc) (w I : list Qc) : list Qc :=
   let I1 := map (fun x => x * k) I in
   let tot1 := qcsum I1 in
   map (fun wx => k * (fst wx / (snd wx / tot1))) (combine w I1).
+
+(* ================================================================ Part B' (round 3): the guards *)
+(* ---------------------------------------------------------------- orthogonalisation WITH clamp_min
+     norm = sqrt(sum |r|^2).clamp_min(1e-12);  orthogonal_probes.append(r / norm)
+   With e = u / max(|u|, eps) the projection the code subtracts is
+     <e, r> e = (<u, r> / max(|u|, eps)^2) u = (<u, r> / max(|u|^2, eps^2)) u
+   and the restored mode  e * |p|  is  sqrt(s) u  with  s = |p|^2 / max(|u|^2, eps^2):
+   still rational in eps2 = eps^2.  (For |u|^2 >= eps2 this is the model above; for u = 0 both
+   coefficients are 0 — Qc has /0 = 0 and <0, r> = 0; in between the projection is only partial.) *)
+Definition qcmax (a b : Qc) : Qc := if qc_leb a b then b else a.
+Definition proj_coef_c (eps2 : Qc) (u r : vec) : C := cscale (/ qcmax (norm2 u) eps2) (dot u r).
+Definition proj_sub_c (eps2 : Qc) (r u : vec) : vec := vsub r (vscale (proj_coef_c eps2 u r) u).
+Definition residual_c (eps2 : Qc) (us : list vec) (p : vec) : vec := fold_left (proj_sub_c eps2) us p.
+Definition gs_c (eps2 : Qc) (ps : list vec) : list vec :=
+  fold_left (fun us p => us ++ [residual_c eps2 us p]) ps [].
+Definition restore_c (eps2 : Qc) (p u : vec) : mode := (norm2 p / qcmax (norm2 u) eps2, u).
+Definition gs_modes_c (eps2 : Qc) (ps : list vec) : list mode :=
+  map (fun pu => restore_c eps2 (fst pu) (snd pu)) (combine ps (gs_c eps2 ps)).
+Definition orthogonalize_c (eps2 : Qc) (ps : list vec) : list mode := sort_desc (gs_modes_c eps2 ps).
+(* the constant of the code: (1e-12)^2 *)
+Definition eps2_code : Qc := Q2Qc (1 # 1000000000000000000000000).
+
+(* the clamp is "clean" on a family of residuals: each is exactly zero (a linearly dependent or zero
+   input mode) or at least eps long (the clamp does not act) *)
+Definition clamp_clean (eps2 : Qc) (us : list vec) : Prop :=
+  Forall (fun u => norm2 u = 0 \/ eps2 <= norm2 u) us.
+(* intensity an input mode p with Gram-Schmidt residual u keeps: nothing when the residual vanishes *)
+Definition kept_intensity (p u : vec) : Qc := if qc_leb (norm2 u) 0 then 0 else norm2 p.
+
+(* ---------------------------------------------------------------- requested weights: the guards
+   the setter checks ONLY `len(weights) != self.num_probes` (ValueError); then w / sum(w) *)
+Definition weights_guard_code (raw I : list Qc) : Prop := length raw = length I.
+(* what makes the request meaningful: a non-zero sum and non-negative RELATIVE weights (all weights
+   of one sign; zeros allowed) — then sqrt(w / current) is real *)
+Definition weights_admissible (raw : list Qc) : Prop :=
+  qcsum raw <> 0 /\ Forall (fun w => 0 <= w / qcsum raw) raw.
+
+(* ---------------------------------------------------------------- one map applied to every mode
+   (center_probe with fixes/C10-center-probe-common-shift.diff: one Fourier shift for the stack) *)
+Definition map_modes (U : vec -> vec) (ms : list mode) : list mode := map (fun m => (fst m, U (snd m))) ms.
+Definition isometry (U : vec -> vec) : Prop := forall a b, length a = length b -> dot (U a) (U b) = dot a b.
